@@ -1213,7 +1213,7 @@ def write_evidence(prop, tier, seed, lean, streams, rc, known_lines, extra_cov, 
         "broken_obligations": lean["broken"],
         "evaluations": ops, "traces_validated_against_impl": seqs,
         "distinct_nontrivial": nontrivial,
-        "rule": "sequences are generated by harness/rt (phase/profile based, seeded); distinct = distinct operation lists; non-trivial = contains a create that reuses a position released earlier in the same sequence (generation > 1)",
+        "rule": "sequences are generated by harness/rt (profile/weight based, seeded from VERIF_SEED); distinct = distinct operation lists; non-trivial = contains a create that reuses a position released earlier in the same sequence (generation > 1)",
         "samples": samples or [{"note": "no stream for this property"}],
         "configs": sorted(set(s["config"] for s in streams)),
         "profiles": sorted(set(s.get("profile", "") for s in streams)),
